@@ -32,17 +32,23 @@ RULE = ("strings over {a,b,c,' '} (length <= 7) plus Unicode samples (astral, co
         "a hit, (for regex) at least one match with at least one group; distinct = distinct call")
 TRUSTED = ["Model/Strings.v transcribes CPython's str.find/rfind/slice/split/rsplit/strip/replace/join semantics and "
            "the yaql wrappers of strings.py; tied by this correspondence",
-           "CPython's re engine is an oracle (match records are taken from re, not modelled); Unicode case mapping is "
-           "not modelled",
+           "Model/RegexEngine.v models CPython's sre matcher for the pattern language of harness/c19_regex.py (literals, ., "
+           "classes, ^ $, | , groups, greedy/lazy ? * + {m,n}, 3 flags on ASCII); tied to re by the engine-vs-re "
+           "correspondence (finditer match records on every modelled pattern x flags x subject of the run); patterns "
+           "outside that language, non-ASCII subjects and cases whose fuel runs out use re as an oracle (counted in the evidence)",
+           "harness/c19_regex.py (pattern parser / Gallina printer)",
+           "Gen/CaseMap.v: simple case mapping of the BMP regenerated from the running interpreter; full (multi-character) and "
+           "context-sensitive mappings are outside the model",
            "str.isspace code points are pinned in Model/Strings.v (is_space) and swept against the running "
            "interpreter over all code points on every run",
            "the brute-force Python twin in harness/props/c19.py (used to classify a disagreement and as oracle)"]
 ASSUMPTIONS = ["regex group names are identifiers (do not start with a digit), so `$<n>` and `$<name>` never collide",
                "no memory quota is configured on the engine (string repetition)",
                "replacement dictionaries have keys that are distinct under Python equality"]
-EXPLANATION = ("proofs of the documented meaning on the Gallina model of the string/regex wrappers + value "
-               "correspondence of the model with strings.py/regex.py on index grids and a generated regex family")
-LEVEL_NOTE = "re matching itself and case mapping are oracles; everything yaql adds on top is modelled"
+EXPLANATION = ("proofs of the documented meaning on the Gallina model of the string/regex wrappers and of a backtracking "
+               "regex matcher + value correspondence of the models with strings.py/regex.py/re on index grids and a generated regex family")
+LEVEL_NOTE = ("the regex engine is modelled for the generated pattern language (oracle outside it); case mapping is the "
+              "regenerated simple table; everything yaql adds on top is modelled")
 ALLOWED_AXIOMS = []
 
 HEADER = "From YV Require Import Model.Strings Model.Regex Model.RegexEngine Model.CaseMap."
